@@ -24,6 +24,7 @@ from typing import TYPE_CHECKING
 from cirq import _compat, protocols
 from cirq.circuits import AbstractCircuit, Alignment, Circuit
 from cirq.circuits.insert_strategy import InsertStrategy
+from cirq.ops.raw_types import _tags_from_json
 
 if TYPE_CHECKING:
     import numpy as np
@@ -203,7 +204,7 @@ class FrozenCircuit(AbstractCircuit, protocols.SerializableByKey):
 
     @classmethod
     def _from_json_dict_(cls, moments, *, tags=(), **kwargs):
-        return cls(moments, strategy=InsertStrategy.EARLIEST, tags=tags)
+        return cls(moments, strategy=InsertStrategy.EARLIEST, tags=_tags_from_json(tags))
 
     def concat_ragged(
         *circuits: cirq.AbstractCircuit, align: cirq.Alignment | str = Alignment.LEFT
